@@ -51,6 +51,18 @@ def set_padding(m, meta):
         if tuple(f2.render_size) != (5, 4) or len(f2.render_output.split("\n")) != 4:
             return {"reproduced": True, "input": "next; set_render_size((3, 2)); set_padding(ExactPadding(1, 1, 1, 1)); next",
                     "observed": {"render_size": tuple(f2.render_size), "lines": len(f2.render_output.split("\n"))}, "expected": (5, 4)}
+        # ... and the other way round: a new render size under an aligned padding already in effect (per axis: the larger of the
+        # minimum and the render dimension), for every combination of narrower / wider and shorter / taller
+        for new_size in ((3, 4), (7, 2), (3, 2), (7, 5), (5, 3)):
+            it3 = RenderIterator(_renderable(3), padding=AlignedPadding(5, 3))
+            next(it3)
+            it3.set_render_size(Size(*new_size))
+            f3 = next(it3)
+            want = (max(5, new_size[0]), max(3, new_size[1]))
+            lines = f3.render_output.split("\n")
+            if tuple(f3.render_size) != want or len(lines) != want[1] or any(len(l_) != want[0] for l_ in lines):
+                return {"reproduced": True, "input": f"AlignedPadding(5, 3) in effect; set_render_size({new_size}); next",
+                        "observed": {"render_size": tuple(f3.render_size), "output": (max(len(l_) for l_ in lines), len(lines))}, "expected": want}
         return histories(m, meta, n_hist=1500)
     return {"reproduced": not ok, "input": "set_padding(AlignedPadding(0, -2)) on an 80x24 terminal", "observed": tuple(f.render_size), "expected": (80, 22)}
 
